@@ -356,3 +356,38 @@ fn c03_lifting_of_multipliers_and_divisors_returns() {
     }
     println!("CASES c03_lifting_constants {cases}");
 }
+
+/// straight-line code that applies a two-operand instruction to its own result over and over (`DUP1 <op>` x 40, x 400): the
+/// value doubles with every step unless the size limit culls it, so the analysis halts only if every operator's size is
+/// accounted for
+#[test]
+fn c03_self_applied_binary_operators_halt() {
+    use std::{sync::mpsc, time::Duration};
+    use storage_layout_extractor::{self as sle, extractor::{chain::{version::EthereumVersion, Chain}, contract::Contract}};
+    std::panic::set_hook(Box::new(|_| {}));
+    let mut cases = 0;
+    let mut hung = 0;
+    for op in [0x01u8, 0x02, 0x03, 0x04, 0x05, 0x06, 0x07, 0x0a, 0x0b, 0x10, 0x11, 0x12, 0x13, 0x14, 0x16, 0x17, 0x18, 0x1a, 0x1b, 0x1c, 0x1d] {
+        for reps in [40usize, 400] {
+            if hung >= 3 { continue; }
+            let mut code = vec![0x34u8];
+            for _ in 0..reps { code.extend([0x80, op]); }
+            code.extend([0x5f, 0x55, 0x00]);
+            cases += 1;
+            let (tx, rx) = mpsc::channel();
+            let c2 = code.clone();
+            let _ = std::thread::spawn(move || {
+                let r = std::panic::catch_unwind(move || {
+                    let contract = Contract::new(c2, Chain::Ethereum { version: EthereumVersion::Shanghai });
+                    let _ = sle::new(contract, Config::default(), sle::tc::Config::default(), LazyWatchdog.in_rc()).analyze();
+                });
+                let _ = tx.send(r.is_ok());
+            });
+            if rx.recv_timeout(Duration::from_secs(60)).is_err() {
+                hung += 1;
+                witness("C03", "limits.analysis_returns", format!("CALLVALUE (DUP1 {op:#04x}) x {reps} PUSH0 SSTORE STOP ({} bytes, no loop)", code.len()), "analyze() did not return within 60 s".into(), "a layout or an error".into());
+            }
+        }
+    }
+    println!("CASES c03_self_applied_operators {cases}");
+}
